@@ -26,6 +26,7 @@ def main():
     wt = tempfile.mkdtemp(prefix="seedwt_", dir=os.environ.get("TMPDIR", "/tmp"))
     os.rmdir(wt)
     print(sh("git -C /repo worktree add -q %s HEAD" % wt).stdout, end="")
+    evsave = None
     try:
         r = sh("git -C %s apply %s" % (wt, os.path.abspath(patch)))
         if r.returncode:
@@ -39,6 +40,8 @@ def main():
         else:
             tests_ok = True
         checks = [c for c in checks if c and not c.startswith("--")]
+        evsave = tempfile.mkdtemp(prefix="seedev_")          # evidence is rewritten by every run: keep what /repo itself produced
+        sh("cp -a %s/evidence/. %s/" % (VERIF, evsave))
         before = set(os.listdir(os.path.join(VERIF, "build")))
         detected = {}
         for c in checks:
@@ -59,7 +62,8 @@ def main():
     finally:
         sh("git -C /repo worktree remove --force %s" % wt)
         # evidence files were rewritten by runs on the seeded tree: restore the committed ones
-        sh("cd %s && git checkout -- evidence" % VERIF)
+        if evsave:
+            sh("cp -a %s/. %s/evidence/ && rm -rf %s" % (evsave, VERIF, evsave))
 
 
 if __name__ == "__main__":
